@@ -6,6 +6,7 @@ import (
 	"fmt"
 	"go/token"
 	"go/types"
+	"sort"
 	"strings"
 
 	"golang.org/x/tools/go/ssa"
@@ -984,6 +985,43 @@ func (R *Run) ruleReplyConsistency() {
 				switch {
 				case v == ssa.Value(ts.Params[1]):
 					k = "offset"
+				case func() bool {
+					// the header computed instead of measured: max(F + Σ len(variable parts) − readOffset, 0) with F and the
+					// parts those of the layout that Read emits
+					mc, isCall := v.(*ssa.Call)
+					if !isCall || calleeName(&mc.Call) != "builtin.max" || len(mc.Call.Args) != 2 {
+						return false
+					}
+					var inner ssa.Value
+					for i, a := range mc.Call.Args {
+						if kk, isK := constInt(a); isK && kk == 0 {
+							inner = mc.Call.Args[1-i]
+						}
+					}
+					if inner == nil {
+						return false
+					}
+					sub, isSub := stripConv(inner).(*ssa.BinOp)
+					if !isSub || sub.Op != token.SUB {
+						return false
+					}
+					if f, ok := loadedField(stripConv(sub.Y)); !ok || f != "hotline.flattenedFileObject.readOffset" {
+						return false
+					}
+					var c int64
+					var lens []string
+					if !P.affineLen(sub.X, &c, &lens) {
+						return false
+					}
+					segs, ok := P.encoderLayout("hotline.flattenedFileObject")
+					if !ok {
+						return false
+					}
+					fixed, vars := fixedWidth(segs)
+					sort.Strings(lens)
+					return int(c) == fixed && strings.Join(lens, ",") == strings.Join(vars, ",")
+				}():
+					k = "header"
 				case func() bool {
 					// the header measured as the length of the very encoding Read emits (built by the same expression),
 					// instead of draining a copy of the object
